@@ -35,6 +35,10 @@ pub struct DirPlan {
     /// order in which the files are (re-)created in the directory that is read (0 = as written)
     pub create_order: u64,
     pub fault: Option<DirFault>,
+    /// non-zero: some files of the directory that is read are symbolic links to regular files kept elsewhere (which
+    /// ones is drawn from this seed)
+    #[serde(default)]
+    pub links: u64,
 }
 
 #[derive(Clone, Serialize, Deserialize)]
@@ -148,7 +152,13 @@ impl Engine for C12 {
             p.read_io = IoPlan::gen_legal(&mut s);
         }
         if s.chance(35) {
-            p.dir = Some(DirPlan { rewrite: s.chance(30), create_order: if s.chance(25) { 0 } else { s.next() | 1 }, fault: None });
+            p.dir = Some(DirPlan { rewrite: s.chance(30), create_order: if s.chance(25) { 0 } else { s.next() | 1 }, fault: None, links: 0 });
+            let mut l = rng.split("links");
+            if l.chance(20) {
+                if let Some(d) = p.dir.as_mut() {
+                    d.links = l.next() | 1;
+                }
+            }
         }
         if f.chance(55) {
             match f.below(3) {
@@ -164,7 +174,7 @@ impl Engine for C12 {
                     _ => Fault::EioAtOffset { off: f.below(text_len + 1) },
                 }),
                 _ => {
-                    let d = p.dir.get_or_insert(DirPlan { rewrite: false, create_order: f.next() | 1, fault: None });
+                    let d = p.dir.get_or_insert(DirPlan { rewrite: false, create_order: f.next() | 1, fault: None, links: 0 });
                     let file = f.usize(nfiles.max(1));
                     d.fault = Some(match f.below(6) {
                         0 | 1 => DirFault::Crash { files: f.range(1, nfiles.max(1) as u64) as usize, at: f.below(400) },
@@ -479,7 +489,13 @@ impl Engine for C12 {
                         st.probe("dir_creation_order_drawn");
                     }
                     for (n, b) in &created {
-                        d.create(&format!("r/{n}"), b);
+                        if dp.links != 0 && (crate::rng::fnv(n.as_bytes()) ^ dp.links) % 3 == 0 {
+                            d.create_link(&format!("r/{n}"), b);
+                            st.probe("dir_file_is_a_symlink");
+                            st.nontrivial = true;
+                        } else {
+                            d.create(&format!("r/{n}"), b);
+                        }
                     }
                     std::fs::create_dir_all(d.join("r")).ok();
                     st.events += 3 * created.len() as u64;
@@ -609,6 +625,6 @@ impl Engine for C12 {
         json!({"real": ["quill::enigma_file::{write_all, write_one, read_into, read_file_into}", "quill::enigma_dir::{write, read}", "walkdir", "std::fs"], "stub": ["byte source/sink (SimReader/SimWriter)", "directory content, creation order, crash point and damage (SimDir on tmpfs)"], "reference": ["refmap::{read_enigma_into, write_enigma_files, enigma_roots}"]})
     }
     fn expected_probes(&self) -> Vec<&'static str> {
-        vec!["dir_rewrite_over_longer_files", "orphan_inner_class", "nesting_depth_2plus", "dir_runs", "dir_creation_order_drawn", "dir_write_err_on_full_device", "dir_read_err_under_fault", "dir_read_ok_on_damaged_tree_agrees", "healed_and_reread", "write_err_under_fault", "read_err_under_fault", "io.eintr"]
+        vec!["dir_rewrite_over_longer_files", "orphan_inner_class", "nesting_depth_2plus", "dir_runs", "dir_creation_order_drawn", "dir_write_err_on_full_device", "dir_file_is_a_symlink", "dir_read_err_under_fault", "dir_read_ok_on_damaged_tree_agrees", "healed_and_reread", "write_err_under_fault", "read_err_under_fault", "io.eintr"]
     }
 }
